@@ -423,6 +423,51 @@ fn run_recover(cx: &mut CaseCx, case: &Value) {
   cx.sample(json!({"t": t, "k": k, "pool_x": xs.iter().map(|x| x.to_string()).collect::<Vec<_>>(), "ok": n_ok, "err": n_err}));
 }
 
+
+/// every threshold of a range with the FIRST t sequential shares (x = 1..t in dealt order), plus other shapes
+fn run_threshold_sweep(cx: &mut CaseCx, case: &Value) {
+  let ts: Vec<u32> = case["ts"].as_array().unwrap().iter().map(|v| v.as_u64().unwrap() as u32).collect();
+  let se = sec_elems();
+  let secret = secret_bytes(&[se[6].clone(), se[7].clone()], 0);
+  for t in ts {
+    let mut rng = ScriptRng::new(&[], cx.seed ^ 0x5EE9 ^ t as u64);
+    let mut ev = match guard(|| Sharks(t).dealer_rng(&secret, &mut rng).ok()) {
+      Ok(Some(e)) => e,
+      _ => continue,
+    };
+    let shares: Vec<Share> = (0..t as usize + 1).map(|_| ev.next().unwrap()).collect();
+    cx.nontrivial(t as u64);
+    let shapes: Vec<(&str, Vec<Share>)> = vec![
+      ("first t in dealt order", shares[..t as usize].to_vec()),
+      ("t+1 in dealt order", shares.clone()),
+      ("last t", shares[1..].to_vec()),
+      ("first t reversed", shares[..t as usize].iter().rev().cloned().collect()),
+      ("first t with the first one repeated at the end", shares[..t as usize].iter().cloned().chain(std::iter::once(shares[0].clone())).collect()),
+    ];
+    let shapes: Vec<(&str, Vec<Share>)> = if t > 140 && !cx.tier.thorough() { shapes.into_iter().take(2).collect() } else { shapes };
+    for (name, sel) in shapes {
+      cx.eval();
+      cx.count("states", 1);
+      cx.count("transitions", 1);
+      match guard(|| Sharks(t).recover(&sel).map_err(|e| e.to_string())) {
+        Ok(Ok(b)) if b == secret => cx.count("ok", 1),
+        other => {
+          cx.viol("C06/threshold-sweep/recover-wrong", format!("threshold {}: recovering from {} gives {:?}", t, name, other.map(|r| r.map(|b| if b.len() == secret.len() { "wrong bytes".to_string() } else { format!("{} bytes", b.len()) }))), json!({"t": t, "selection": name}));
+        }
+      }
+    }
+    // t-1 distinct must fail
+    if t >= 2 {
+      cx.eval();
+      if !matches!(guard(|| Sharks(t).recover(&shares[..t as usize - 1]).map_err(|e| e.to_string())), Ok(Err(_))) {
+        cx.viol("C06/recovered-below-threshold", format!("threshold {}: t-1 shares recovered", t), json!({"t": t}));
+      }
+      cx.count("err", 1);
+    }
+  }
+  cx.outcome("threshold sweep");
+}
+
 fn run_large(cx: &mut CaseCx, case: &Value) {
   let t = case["t"].as_u64().unwrap() as u32;
   let se = sec_elems();
@@ -564,6 +609,22 @@ pub fn spec() -> PropSpec {
         },
         run: run_recover,
         min_counts: &[("ok", 1000), ("err", 100), ("unequal_width_refused", 100)],
+      },
+      Check {
+        name: "threshold-sweep",
+        rule: "EVERY threshold 1..=140 plus 191..194, 255..258, 512..514 (thorough: every threshold ..=640) with iterator shares only: first t in dealt order (x = 1..t), t+1, last t, reversed, with a repeat; t-1 must fail (threshold-dependent arithmetic: windows, batches, binomial shortcuts)",
+        gen: |tier| {
+          // quick: every t <= 140, then the neighbourhoods of 192, 256, 512; thorough: every t <= 640
+          let mut ts: Vec<u64> = (1..=140).collect();
+          if tier.thorough() {
+            ts.extend(141..=640);
+          } else {
+            ts.extend([191, 192, 193, 194, 255, 256, 257, 258, 512, 513, 514]);
+          }
+          ts.chunks(4).map(|c| json!({"ts": c})).collect()
+        },
+        run: run_threshold_sweep,
+        min_counts: &[("ok", 600)],
       },
       Check {
         name: "large-thresholds",
